@@ -41,6 +41,12 @@ def _exp3(x, a=0.05, b=0.2, c=-0.2):
     return a + b * np.exp(c * x)
 
 
+def _nest(x, a, b, g_of_x):
+    """dependence function that uses ANOTHER dependence function as a parameter (as predefined.get_OMAE2020_V_Hs does);
+    linear in (a, b), so curve_fit's answer does not depend on its start values"""
+    return (a + b * x) * g_of_x(x)
+
+
 DEPFUNCS = {"lin": (_lin, None), "power3": (_power3, [(0, None), (0, None), (None, None)]),
             "exp3": (_exp3, [(0, None), (0, None), (None, None)])}
 
@@ -130,17 +136,22 @@ def build_model(spec):
             desc["intervals"] = sl
         if dm.get("conditional_on") is not None:
             desc["conditional_on"] = dm["conditional_on"]
-            pars = {}
-            for pn in names:
-                if pn in dm["deps"]:
-                    f, bounds = DEPFUNCS[dm["deps"][pn]]
-                    df = V.DependenceFunction(f, bounds)
+            made = {}
+            for nested_pass in (False, True):      # a nested function needs its conditioner's object
+                for pn in names:
+                    if pn not in dm["deps"] or isinstance(dm["deps"][pn], dict) != nested_pass:
+                        continue
+                    if nested_pass:
+                        df = V.DependenceFunction(_nest, None, g_of_x=made[dm["deps"][pn]["nested_on"]])
+                    else:
+                        f, bounds = DEPFUNCS[dm["deps"][pn]]
+                        df = V.DependenceFunction(f, bounds)
                     df._c09_tag = dep_id
                     b.init_d[dep_id] = [float(v) for v in df.parameters.values()]
                     b.dep_ids[(i, pn)] = dep_id
                     dep_id += 1
-                    pars[pn] = df
-            desc["parameters"] = pars
+                    made[pn] = df
+            desc["parameters"] = {pn: made[pn] for pn in names if pn in made}   # parameter order of the template
         descs.append(desc)
     b.model = V.GlobalHierarchicalModel(descs)
     return b
@@ -838,10 +849,136 @@ def jsonable_case(case):
 
 def replay(ctx, c):
     notes = {}
+    if c.get("nested"):
+        o = nested_oracle(c, notes)
+        if o:
+            print("  ", o[0], o[1])
+        return o is not None
     o = oracle({"spec": c["spec"], "data": np.array(c["data"], dtype=float), "perm": c["perm"], "refit": c.get("refit", True)}, notes)
     if o:
         print("  ", o[0], o[1])
     return o is not None
+
+
+# ------------------------------------------------------------------ nested dependence functions, fit A then re-fit B
+NESTED_TEMPL = [("lognormal", ["mu", "sigma"]), ("normal", ["mu", "sigma"]), ("weibull2", ["alpha", "beta"]), ("ew", ["alpha", "beta"])]
+
+
+def gen_regime_data(nrng, template, n_rows, regime):
+    p = nrng.weibull(1.5, n_rows) * (2.6 if regime == "A" else 3.4) + 0.15
+    if template == "normal":
+        x = nrng.normal(2.0 + 0.6 * p, 0.4 + 0.08 * p) if regime == "A" else nrng.normal(0.5 + 1.1 * p, 0.9 + 0.02 * p)
+    elif template == "lognormal":
+        x = np.exp(nrng.normal(0.9 + 0.3 * np.sqrt(p), 0.18)) if regime == "A" else np.exp(nrng.normal(0.3 + 0.6 * np.sqrt(p), 0.32))
+    else:
+        x = ((1.0 + 0.5 * p) * nrng.weibull(2.2, n_rows) if regime == "A" else (2.5 + 0.15 * p) * nrng.weibull(1.3, n_rows)) + 0.05
+    return np.column_stack([p, x])
+
+
+def gen_nested_case(ctx, k):
+    rng, nrng = ctx.rng, ctx.np_rng(10000 + k)
+    tname, pnames = NESTED_TEMPL[k % len(NESTED_TEMPL)]
+    order = "dependent-first" if (k // len(NESTED_TEMPL)) % 2 == 0 else "conditioner-first"
+    if order == "dependent-first":      # first parameter uses the dependence function of the second
+        deps = {pnames[0]: {"nested_on": pnames[1]}, pnames[1]: "lin"}
+    else:
+        deps = {pnames[0]: "lin", pnames[1]: {"nested_on": pnames[0]}}
+    sl = rng.choice([{"kind": "width", "width": rng.choice([0.5, 0.7, 1.0]), "reference": rng.choice(["center", "median"]), "right_open": True,
+                      "value_range": None, "min_n_points": 20, "min_n_intervals": 3},
+                     {"kind": "number", "n_intervals": rng.randrange(5, 10), "reference": "center", "include_max": True,
+                      "value_range": None, "min_n_points": 20, "min_n_intervals": 3}])
+    fds = [None, {"method": "wlsq", "weights": rng.choice([None, "linear"])}] if tname == "ew" else rng.choice([None, [None, {"method": "mle"}]])
+    spec = {"dims": [{"template": "weibull2", "conditional_on": None, "slicer": sl},
+                     {"template": tname, "conditional_on": 0, "deps": deps, "slicer": None}], "fds": fds}
+    n = rng.choice([300, 400, 600, 1000])
+    return {"nested": order, "spec": spec, "data_a": gen_regime_data(nrng, tname, n, "A"),
+            "data_b": gen_regime_data(nrng, tname, rng.choice([300, 500, 800]), "B")}
+
+
+def plain_fit(b, data, fds):
+    import warnings
+    try:
+        with warnings.catch_warnings(), np.errstate(all="ignore"):
+            warnings.simplefilter("ignore")
+            b.model.fit(np.array(data, dtype=float), copy.deepcopy(fds))
+        return None
+    except Exception as e:  # noqa
+        return "%s: %s" % (type(e).__name__, str(e)[:160])
+
+
+def nested_oracle(case, notes):
+    """model fitted to A and re-fitted to B  ==  fresh model fitted to B (dependence functions that use another
+    dependence function included).  None if it holds, else (signature, message)."""
+    spec, fds = case["spec"], case["spec"]["fds"]
+    A, B = np.asarray(case["data_a"], dtype=float), np.asarray(case["data_b"], dtype=float)
+    sig = {"clause": "re-fit", "nested": case["nested"]}
+    m, f = build_model(spec), build_model(spec)
+    e = plain_fit(m, A, fds)
+    if e:
+        notes["nested_unjudged"] = notes.get("nested_unjudged", 0) + 1
+        return None
+    e_m, e_f = plain_fit(m, B, fds), plain_fit(f, B, fds)
+    if e_f:
+        notes["nested_unjudged"] = notes.get("nested_unjudged", 0) + 1
+        return None
+    if e_m:
+        if e_m.startswith("RuntimeError: Failed to fit"):
+            notes["nested_unjudged"] = notes.get("nested_unjudged", 0) + 1
+            return None
+        return (dict(sig, kind="raises"), "re-fit to other data raises %s, a fresh model fits" % e_m)
+    sm, sf = snapshot(m), snapshot(f)
+    for i, (dm, df) in enumerate(zip(sm, sf)):
+        if not dm["cond"]:
+            continue
+        if len(dm["pars"]) != len(df["pars"]) or dm["n_dists"] != df["n_dists"] or \
+                not all(np.array_equal(a, bb) for a, bb in zip(dm["data_intervals"], df["data_intervals"])):
+            return (dict(sig, kind="lists"), "dimension %d: interval data of the re-fit differ from a fresh fit" % i)
+        if not all(relclose(a, bb, 1e-9, 1e-12) for p, q in zip(dm["pars"], df["pars"]) for a, bb in zip(p, q)) or \
+                not all(relclose(a, bb, 1e-9, 1e-12) for a, bb in zip(dm["conditioning_values"], df["conditioning_values"])):
+            return (dict(sig, kind="estimates"), "dimension %d: per-interval estimates / conditioning values of the re-fit differ from a fresh fit" % i)
+        refs = np.array(df["conditioning_values"], dtype=float)
+        cm, cf = m.model.distributions[i].conditional_parameters, f.model.distributions[i].conditional_parameters
+        for j, pn in enumerate(b_names(m, i)):
+            if pn not in cm:
+                continue
+            y = np.array([p[j] for p in df["pars"]], dtype=float)
+            vm, vf = np.asarray(cm[pn](refs), dtype=float), np.asarray(cf[pn](refs), dtype=float)
+            scale = float(np.max(np.abs(y))) or 1.0
+            res_m, res_f = float(np.sum((vm - y) ** 2)), float(np.sum((vf - y) ** 2))
+            worst = float(np.max(np.abs(vm - vf) / (np.abs(vf) + 1e-3 * scale)))
+            if worst > 1e-4 or res_m > res_f * (1 + 1e-3) + 1e-12 * scale ** 2:
+                return (dict(sig, kind="dependence"),
+                        "dimension %d: dependence function of %s after fit(A); fit(B) differs from a fresh fit(B) by up to %.3g relative at the interval "
+                        "references (squared residual against the interval estimates %.6g vs %.6g)" % (i, pn, worst, res_m, res_f))
+    return None
+
+
+def b_names(b, i):
+    return b.param_names[i]
+
+
+def shrink_nested(case, sig):
+    budget = [24]
+    out = dict(case)
+    for key in ("data_b", "data_a"):
+        def fails(rows, key=key):
+            if budget[0] <= 0 or len(rows) < 150:
+                return False
+            budget[0] -= 1
+            try:
+                o = nested_oracle(dict(out, **{key: np.array(rows, dtype=float)}), {})
+            except Exception:
+                return False
+            return o is not None and o[0].get("kind") == sig.get("kind")
+        rows = vlib.shrink_list([list(map(float, r)) for r in np.asarray(out[key], dtype=float)], fails, min_len=150)
+        out[key] = np.array(rows, dtype=float)
+    return out
+
+
+def jsonable_nested(case):
+    return {"nested": case["nested"], "spec": case["spec"],
+            "data_a": [[float(v) for v in r] for r in np.asarray(case["data_a"], dtype=float)],
+            "data_b": [[float(v) for v in r] for r in np.asarray(case["data_b"], dtype=float)]}
 
 
 # ------------------------------------------------------------------ driver
@@ -955,6 +1092,27 @@ def run(ctx):
             if ctx.violation(o2[0], "joint fit (%s, %d rows, %s): %s" % (
                     [dm["conditional_on"] for dm in case["spec"]["dims"]], len(small["data"]), case["variant"], o2[1]), jsonable_case(small)):
                 found += 1
+    # nested dependence functions (both parameter orders): fit(A); fit(B) against a fresh fit(B) -- search only
+    n_nested = ctx.n(8, 32)
+    nested_found = 0
+    for k in range(n_nested):
+        if nested_found >= 2:
+            break
+        nc = gen_nested_case(ctx, k)
+        try:
+            o = nested_oracle(nc, ctx.notes)
+        except Exception as e:  # noqa
+            ctx.notes["oracle_crashes"] = ctx.notes.get("oracle_crashes", 0) + 1
+            ctx.notes["oracle_crash_last"] = "nested %s: %s" % (type(e).__name__, str(e)[:200])
+            continue
+        ctx.count(("nested", k, nc["nested"], nc["spec"]["dims"][1]["template"], len(nc["data_a"]), len(nc["data_b"])), True)
+        ctx.notes["nested_refit_cases"] = ctx.notes.get("nested_refit_cases", 0) + 1
+        if o is not None:
+            small = shrink_nested(nc, o[0])
+            o2 = nested_oracle(small, {}) or o
+            if ctx.violation(o2[0], "joint fit with nested dependence functions (%s, %s, fit to %d rows then re-fit to %d rows): %s" % (
+                    nc["nested"], nc["spec"]["dims"][1]["template"], len(small["data_a"]), len(small["data_b"]), o2[1]), jsonable_nested(small)):
+                nested_found += 1
     if ctx.notes.get("oracle_crashes", 0) > max(2, len(order) // 4):
         ctx.broken.append(("search", "property oracle crashed on %d cases" % ctx.notes["oracle_crashes"], ctx.notes.get("oracle_crash_last", "")))
     ctx.cov["rule"] = ("random 2-D / 3-D hierarchical models (chain, star, extra unconditional dimension) x the three slicers and their options x "
@@ -967,4 +1125,5 @@ def run(ctx):
     ctx.assumptions += ["template fit is invariant under permutation of its observations (exact for the estimators; to optimiser tolerance for scipy)",
                         "no NaN in the data; value range max/min taken over a strict total order",
                         "PointsPerIntervalSlicer: no two observations in different chunks have tied conditioning values (otherwise known finding C09-ppi-ties)",
-                        "dependence functions without dependent parameters (the callback protocol is C14)"]
+                        "Coq model: dependence functions without dependent parameters (the callback protocol is C14); nested ones are "
+                        "covered by the search only (fit A, re-fit B vs fresh fit B)"]
